@@ -115,6 +115,21 @@ fn job_dot_export(job: &Value) -> Value {
     let prefix = job.get("prefix").and_then(|p| p.as_str()).unwrap_or("P");
     let dump = scnr::verif::dump(&scanner);
     let dir = scratch_dir();
+    // optionally the folder already holds an export of another (larger) configuration with the same prefix and
+    // mode names: the files must be REPLACED by this export
+    if let Some(first) = job.get("first") {
+        if let Ok(fm) = catch_unwind(|| crate::modes_from_json(first)) {
+            if let (Some(fs), _, _) = crate::build(&fm, false) {
+                let (c0, m0) = call_export(&fs, prefix, &dir);
+                res.insert("first_outcome".into(), json!(c0));
+                res.insert("first_message".into(), json!(m0));
+                res.insert(
+                    "first_sizes".into(),
+                    Value::Array(list_files(&dir).into_iter().map(|(n, t)| json!([n, t.as_str().map(|x| x.len()).unwrap_or(0)])).collect()),
+                );
+            }
+        }
+    }
     let (class, msg) = call_export(&scanner, prefix, &dir);
     res.insert("outcome".into(), json!(class));
     if !msg.is_empty() {
